@@ -45,6 +45,7 @@ class Sub:
         self.variables = None
         self.events = []  # [(payload, plan)]
         self.refused = None
+        self.arg_failure = False
         self.responses = []
         self.exc = None
         self.rt = None
@@ -90,9 +91,17 @@ def run_one(seed, preset=None, tier="quick", want_case=False):
             s.refused = "variables" if probe.refused and not probe.var_ambiguous else None
             if s.refused is None:
                 s.variables = gen_variables(schema, Tape(seed, preset), op, stream="vars%d" % i, null_pct=0)
+        elif op.vardefs and ot.chance(35):
+            # variables with explicit nulls: a null reaching a non-null argument of the subscription's
+            # root field is a field error raised while the source stream is created
+            nv = gen_variables(schema, Tape(seed, preset), op, stream="varsn%d" % i, null_pct=70)
+            probe = RefExec(schema, doc, Tape(seed, preset), "proben%d" % i).run(s.op_name, nv)
+            if not probe.refused:
+                s.variables = nv
+                s.arg_failure = any(len(e.path) == 1 and str(e.kind).startswith("argument:") for e in probe.errors)
         if ot.chance(40):
             s.initial = {"_decoy_initial_value": i}
-        if not s.refused:
+        if not s.refused and not s.arg_failure:
             for k in range(ot.rint(0, 4 if tier == "quick" else 9)):
                 none_root = ot.chance(10)
                 stream = "data%d_%d" % (i, k)
@@ -183,6 +192,18 @@ def run_one(seed, preset=None, tier="quick", want_case=False):
                 for resp in s.responses:
                     viol.extend(check_envelope(resp, s.text))
                 started = [e for e in out.events if e[1] == "source_start" and e[2] == s.rid]
+                if s.arg_failure:
+                    # the root field's arguments cannot be coerced: no source stream can be created; the
+                    # failure is answered (one response carrying the field error), never raised
+                    r0 = s.responses[0] if s.responses else None
+                    ok = (len(s.responses) == 1 and isinstance(r0, dict) and r0.get("errors")
+                          and (r0.get("data") is None or all(v is None for v in r0["data"].values())))
+                    if not ok:
+                        viol.append(V("root_argument_failure_response", "%s: the root field's argument coercion fails; yielded %d responses: %r" % (
+                            lab, len(s.responses), s.responses[:2])))
+                    if started:
+                        viol.append(V("source_started_without_arguments", "%s: source started although its arguments cannot be coerced" % lab))
+                    continue
                 if s.refused:
                     if len(s.responses) != 1 or s.responses[0].get("data") is not None or not s.responses[0].get("errors"):
                         viol.append(V("refused_subscription_response", "%s (refused: %s) yielded %d responses: %r" % (
@@ -264,6 +285,7 @@ def run_one(seed, preset=None, tier="quick", want_case=False):
                    "event_with_errors": int(any(plan.errors for s in subs for _, plan in s.events)),
                    "event_nulls_whole_data": int(any(plan.data is None and not plan.refused for s in subs for _, plan in s.events)),
                    "two_streams_interleaved": int(overlap >= 2),
+                   "root_field_argument_coercion_fails": int(any(s.arg_failure for s in subs)),
                    "subscription_root_repeated": int(any(getattr(s.doc, "probes", {}).get("subscription_root_repeated") for s in subs))}
     if want_case or viol:
         r["case"] = {"sdl": sdl, "engine_config": cfg, "scheduler": sch,
